@@ -339,6 +339,14 @@ def checker (model : Bool) : Checker where
             let srcty := (field obs "srcty").getD "?"
             let openObs := (field obs "open").bind parseOpen
             let decObs := (field obs "dec").bind parseDec
+            -- the stored bytes belong to the caller: a second Scan of the very same buffer must answer as the first did and
+            -- restore the same value, and the restored value must not depend on what the caller does with the buffer later
+            let again := (field obs "again").getD "na"
+            if again ≠ "na" ∧ again ≠ rt then
+              (some resync, some s!"scanning the same stored bytes a second time answered {again} after {rt}: Scan damaged its argument, so Scan(Value(x)) no longer restores x")
+            else if field obs "alias" == some "1" then
+              (some resync, some "the restored value changed when the caller overwrote the buffer it had passed to Scan")
+            else
             match parseSrc srcty dataO with
             | none => (some resync, some "bad-observation")
             | some src =>
